@@ -249,6 +249,37 @@ def exhaustive(tier):
         yield {"seed": "hyperv", "ops": [], "hv_cycle": variant}
     for variant in ("parent-self", "parent-mutual"):
         yield {"seed": "hyperv", "ops": [], "hv_cycle": variant}
+    # a huge allocation unit together with a huge disk size: zero fills must still be sized by the request
+    pairs = {
+        "vdi": [("BlockSize", 1 << 30), ("DiskSize", 1 << 40), ("BlocksInHDD", 3)],
+        "hds-v2": [("m_Sectors", 1 << 21), ("m_SizeInSectors", 1 << 40)],
+        "hds-v1": [("m_Sectors", 1 << 21), ("m_SizeInSectors", (1 << 32) - 1)],
+        "vhd-dyn": [("dyn.block_size", 1 << 30), ("end.current_size", 1 << 40), ("copy.current_size", 1 << 40)],
+        "vhdx": [("md.item0", 1 << 28), ("md.item1", 0xFFFFF000)],
+        "vmdk-kdmv": [("grain_size", 1 << 21), ("capacity", 1 << 40)],
+        "vmdk-stream": [("grain_size", 1 << 21), ("capacity", 1 << 40)],
+        "vmdk-cowd": [("grain_size", 1 << 21), ("capacity", (1 << 32) - 1)],
+        "vmdk-sesparse": [("grain_size", 1 << 21), ("capacity", 1 << 40)],
+        "qcow2": [("cluster_bits", 21), ("size", 1 << 50)],
+    }
+    for sname, sets in pairs.items():
+        kind, data, unit, fields = seeds()[sname]
+        order = field_order(kind)
+        ops = []
+        for fname, v in sets:
+            off, width = fields[fname]
+            ops.append(["set", off, width, v & ((1 << (8 * width)) - 1), order])
+        for sub in (ops, ops[:1], ops[1:]):
+            yield {"seed": sname, "ops": sub, "field": "big-unit"}
+        # the same with every known map / BAT entry marked unallocated, so that the zero-fill path is taken
+        hole = {"vdi": ("map.", 0xFFFFFFFF), "hds-v2": ("bat.", 0), "hds-v1": ("bat.", 0), "vhd-dyn": ("bat.", 0xFFFFFFFF), "vhdx": ("bat.", 0)}.get(sname)
+        if hole:
+            extra = []
+            for fname, (off, width) in fields.items():
+                if fname.startswith(hole[0]):
+                    extra.append(["set", off, width, hole[1] & ((1 << (8 * width)) - 1), order])
+            yield {"seed": sname, "ops": ops + extra, "field": "big-unit-holes"}
+            yield {"seed": sname, "ops": ops[:1] + extra, "field": "big-unit-holes"}
     yield {"seed": "qcow2-bomb", "ops": []}
     yield {"seed": "vmdk-bomb", "ops": []}
     yield {"seed": "qcow2", "ops": [], "craft": "l1-to-header"}
